@@ -181,10 +181,107 @@ class Body:
         return "<Body %s>" % self.npath
 
 
+def items_of(raw):
+    """Module-level items of the local crate by kind (normalised paths): free functions, ADTs, statics, traits.
+    Items nested in a function or type (statics in a fn, nested fns) are left out: they move with their parent."""
+    fns = {norm(b["path"]) for b in raw["bodies"] if b["kind"] == "Fn"}
+    adts = {norm(k) for k, v in raw["adts"].items() if v.get("local")}
+    statics = {norm(s["path"]) for s in raw["statics"]}
+    roots = {p.split("::", 1)[0] for p in fns | adts | statics if "::" in p}
+    traits = set()
+    for b in raw["bodies"]:
+        t = norm(b.get("impl_trait"))
+        if t and t.split("::", 1)[0] in roots:
+            traits.add(t)
+    for i in raw["impls"]:
+        t = norm(i.get("trait"))
+        if t and t.split("::", 1)[0] in roots:
+            traits.add(t)
+    allp = fns | adts | statics | traits
+    def top(ps):
+        return sorted(p for p in ps if (p.rsplit("::", 1)[0] if "::" in p else "") not in allp)
+    return {"fn": top(fns), "adt": top(adts), "static": top(statics), "trait": top(traits)}
+
+
+_REF_ITEMS = None
+
+
+def ref_items(crate, config):
+    global _REF_ITEMS
+    if _REF_ITEMS is None:
+        try:
+            with open(os.path.join(VERIF, "analysis", "ref_items.json")) as f:
+                _REF_ITEMS = json.load(f)
+        except OSError:
+            _REF_ITEMS = {}
+    return _REF_ITEMS.get("%s|%s" % (crate, config))
+
+
+def relocation_map(raw):
+    """Items that exist in the analysed tree under another module path than in the reference tree the rules were
+    written against (a function / type / static / trait MOVED to another module, or its module renamed): map the new
+    path to the reference path.  An item is recognised by its kind and its own name; when several reference items of
+    that name are gone, the one sharing the longest module prefix is taken, and a tie is left unresolved (the anchor
+    is then reported missing).  Renamed items are not guessed."""
+    ref = ref_items(raw["crate"], raw.get("config"))
+    if not ref:
+        return {}
+    cur = items_of(raw)
+    m = {}
+    for kind in ("fn", "adt", "static", "trait"):
+        c_new = [p for p in cur[kind] if p not in set(ref.get(kind, []))]
+        r_gone = [p for p in ref.get(kind, []) if p not in set(cur[kind])]
+        for c in c_new:
+            last = c.rsplit("::", 1)[-1]
+            cands = [r for r in r_gone if r.rsplit("::", 1)[-1] == last]
+            if not cands:
+                continue
+            def common(a, b):
+                n = 0
+                for x, y in zip(a.split("::"), b.split("::")):
+                    if x != y:
+                        break
+                    n += 1
+                return n
+            best = sorted(cands, key=lambda r: -common(c, r))
+            if len(best) > 1 and common(c, best[0]) == common(c, best[1]):
+                continue
+            # one reference item is claimed by one current item only
+            if best[0] in m.values():
+                continue
+            m[c] = best[0]
+    return m
+
+
+def relocate_text(text, mapping, prefix=""):
+    """Rewrite item paths in the fact JSON text (paths appear with generic arguments interleaved, so the item path is
+    replaced wherever it occurs as a whole path prefix)."""
+    for new, old in sorted(mapping.items(), key=lambda kv: -len(kv[0])):
+        rx = re.compile(r"(?<![A-Za-z0-9_:])" + re.escape(prefix + new) + r"(?![A-Za-z0-9_])")
+        text = rx.sub(prefix + old, text)
+    return text
+
+
 class Facts:
     def __init__(self, path):
         with open(path) as f:
-            self.raw = json.load(f)
+            text = f.read()
+        self.raw = json.loads(text)
+        self.relocated = {}
+        if not os.environ.get("VERIF_NO_RELOCATE"):
+            m = relocation_map(self.raw)
+            if m:
+                self.relocated = m
+                self.raw = json.loads(relocate_text(text, m))
+            if self.raw["crate"] != "open_coroutine_core":
+                # references into the core crate follow the core crate's own relocation (same tree, default features)
+                try:
+                    core = load("core/default")
+                    if core.relocated:
+                        self.relocated = dict(self.relocated, **{"open_coroutine_core::" + k: "open_coroutine_core::" + v for k, v in core.relocated.items()})
+                        self.raw = json.loads(relocate_text(json.dumps(self.raw), core.relocated, prefix="open_coroutine_core::"))
+                except Exception:
+                    pass
         self.config = self.raw.get("config")
         self.crate = self.raw["crate"]
         self.adts = self.raw["adts"]
